@@ -126,3 +126,17 @@ Example C20_example :
   read_response {| budget := 1073741824 |} false (TStruct [TArray false 40%N (TStruct [TInt 4; TString false] [])] [])
     [0; 0; 0; 8; 0; 0; 0; 1; 127; 255; 255; 255]%N = Err EEof 0 0.
 Proof. vm_compute. reflexivity. Qed.
+
+(* ---- the raw (SaslHandshake v0) SASL authentication response: the one response the Transport
+   reads outside ReadResponse.  Statements in Properties/C20sasl.v (over Model/Sasl.v); restated
+   here so that they are part of this property's obligations. ---- *)
+From KV Require Model.Sasl Proofs.SaslRawRead Properties.C20sasl.
+
+Theorem C20_raw_sasl_alloc_proportional :
+  forall announced avail e,
+    let r := Sasl.raw_read Sasl.Transport announced avail e in
+    (Sasl.rr_alloc r <= 10 * Sasl.rr_received r + 2560)%N /\
+    (Sasl.rr_received r <= N.of_nat (length avail))%N /\
+    (0 <= announced -> Z.of_N (Sasl.rr_received r) <= announced)%Z.
+Proof. exact C20sasl.C20_raw_sasl_alloc_proportional_go. Qed.
+Print Assumptions C20_raw_sasl_alloc_proportional.
